@@ -70,6 +70,37 @@ GLUE = [
 ]
 
 
+# every combination of the two options that decide where LT05 may break and LT02 may collapse a line
+LAYOUT_PRODUCT = [
+    {"core": {"max_line_length": n}, "indentation": {"implicit_indents": m}} for m in ("forbid", "allow", "require") for n in (6, 10, 20, 45)
+]
+
+
+def long_names(s):
+    """The same statement with long identifiers (lines stay too long after every ordinary break)."""
+    import re
+
+    s = re.sub(r"\ba\b", "a_rather_long_column_name_aaaaaaaaaaaaaaaaaaaaaaa", s)
+    return re.sub(r"\bt\b", "some_table_name", s)
+
+
+def long_tail(s):
+    """Long identifiers only after the first FROM (the select targets stay short)."""
+    i = s.find(" FROM ")
+    return s if i < 0 else s[:i] + long_names(s[i:])
+
+
+def layout_product_cases(rulesets, group=16):
+    base = sorted(set(corpus.G(1)) | set(GLUE))
+    base = sorted(set(base) | {long_names(s) for s in base} | {long_tail(s) for s in base}, key=lambda s: (len(s), s))
+    out = []
+    for rs in rulesets:
+        for cfg in LAYOUT_PRODUCT:
+            for i in range(0, len(base), group):
+                out.append({"k": "strs", "d": "ansi", "rs": rs, "ss": base[i : i + group], "cfg": cfg})
+    return out
+
+
 def raw_strings(tier, ops="WKME"):
     base = corpus.G(1) if tier == "quick" else corpus.G(2)
     ss = set(corpus.D(base, 1, ops)) | set(GLUE)
